@@ -34,7 +34,11 @@ fn vopt(o: Option<String>) -> String {
     match o { Some(s) => format!("VOpt (Some ({}))", s), None => "VOpt None".into() }
 }
 
+static STRINGS: std::sync::atomic::AtomicUsize = std::sync::atomic::AtomicUsize::new(0);
 fn gen_string(r: &mut Rng) -> String {
+    // every 40th string is within the protocol's 32767 UTF-16 units but beyond 32767 BYTES of UTF-8
+    let k = STRINGS.fetch_add(1, std::sync::atomic::Ordering::Relaxed);
+    if k % 40 == 39 { return match (k / 40) % 3 { 0 => "\u{e4}".repeat(16_384), 1 => "\u{20ac}".repeat(10_923), _ => "a".repeat(32_767) }; }
     match r.below(8) {
         0 => String::new(),
         1 => r.utf8(300),
